@@ -166,14 +166,14 @@ func sxClient(cl *mqtt.Client) sx.V {
 func sxStoredClient(c storage.Client) sx.V {
 	p := c.Properties
 	w := c.Will
-	return sx.L{sx.S(c.ID), sx.S(c.Listener), sx.S(c.Remote), sx.B(c.Username),
+	return append(sx.L{sx.S(c.ID), sx.S(c.Listener), sx.S(c.Remote), sx.B(c.Username),
 		sx.Bool(c.Clean), sx.N(c.ProtocolVersion),
 		sx.N(p.SessionExpiryInterval), sx.Bool(p.SessionExpiryIntervalFlag),
 		sx.N(p.RequestProblemInfo), sx.Bool(p.RequestProblemInfoFlag),
 		sx.L{sx.S(p.AuthenticationMethod), sx.B(p.AuthenticationData), sx.N(p.RequestResponseInfo),
 			sx.N(p.ReceiveMaximum), sx.N(p.TopicAliasMaximum), sxUsers(p.User), sx.N(p.MaximumPacketSize)},
 		sx.L{sx.B(w.Payload), sxUsers(w.User), sx.S(w.TopicName), sx.N(w.Flag), sx.N(w.WillDelayInterval),
-			sx.N(w.Qos), sx.Bool(w.Retain)}}
+			sx.N(w.Qos), sx.Bool(w.Retain)}}, sx.S(c.T))
 }
 
 func sxSubscription(s packets.Subscription, reason byte) sx.V {
@@ -183,11 +183,11 @@ func sxSubscription(s packets.Subscription, reason byte) sx.V {
 
 func sxStoredSub(s storage.Subscription) sx.V {
 	return sx.L{sx.S(s.ID), sx.S(s.Client), sx.S(s.Filter), sx.N(uint64(int64(s.Identifier))), sx.N(s.RetainHandling),
-		sx.N(s.Qos), sx.Bool(s.RetainAsPublished), sx.Bool(s.NoLocal)}
+		sx.N(s.Qos), sx.Bool(s.RetainAsPublished), sx.Bool(s.NoLocal), sx.S(s.T)}
 }
 
-func sxPubProps(ct, rt string, cd []byte, si []int, u []packets.UserProperty) sx.V {
-	return sx.L{sx.S(ct), sx.S(rt), sx.B(cd), sxInts(si), sxUsers(u)}
+func sxPubProps(ct, rt string, cd []byte, si []int, u []packets.UserProperty, alias uint16) sx.V {
+	return sx.L{sx.S(ct), sx.S(rt), sx.B(cd), sxInts(si), sxUsers(u), sx.N(alias)}
 }
 
 // a packet as the hooks are called with it
@@ -196,7 +196,7 @@ func sxPacket(pk packets.Packet) sx.V {
 	return sx.L{sxFixedHeader(pk.FixedHeader), sx.N(pk.PacketID), sx.S(pk.TopicName), sx.B(pk.Payload), sx.S(pk.Origin),
 		sx.N(uint64(pk.Created)), sx.N(uint64(pk.Expiry)), sx.N(pk.ProtocolVersion),
 		sx.N(p.PayloadFormat), sx.Bool(p.PayloadFormatFlag), sx.N(p.MessageExpiryInterval),
-		sxPubProps(p.ContentType, p.ResponseTopic, p.CorrelationData, p.SubscriptionIdentifier, p.User)}
+		sxPubProps(p.ContentType, p.ResponseTopic, p.CorrelationData, p.SubscriptionIdentifier, p.User, p.TopicAlias)}
 }
 
 func sxStoredMsg(m storage.Message) sx.V {
@@ -204,7 +204,7 @@ func sxStoredMsg(m storage.Message) sx.V {
 	return sx.L{sx.S(m.ID), sx.S(m.Client), sx.S(m.Origin), sx.N(m.PacketID), sxFixedHeader(m.FixedHeader), sx.S(m.TopicName),
 		sx.B(m.Payload), sx.N(uint64(m.Sent)), sx.N(uint64(m.Created)),
 		sx.N(p.PayloadFormat), sx.Bool(p.PayloadFormatFlag), sx.N(p.MessageExpiryInterval),
-		sxPubProps(p.ContentType, p.ResponseTopic, p.CorrelationData, p.SubscriptionIdentifier, p.User)}
+		sxPubProps(p.ContentType, p.ResponseTopic, p.CorrelationData, p.SubscriptionIdentifier, p.User, p.TopicAlias), sx.S(m.T)}
 }
 
 func sxInfo(i system.Info) sx.V {
@@ -254,7 +254,7 @@ func readBack(h mqtt.Hook) sx.V {
 	for _, x := range ret {
 		d = append(d, sxStoredMsg(x))
 	}
-	out := sx.L{sortedL(a), sortedL(b), sortedL(c), sortedL(d), sx.L{sx.S(sys.ID), sxInfo(sys.Info)}}
+	out := sx.L{sortedL(a), sortedL(b), sortedL(c), sortedL(d), sx.L{sx.S(sys.ID), sxInfo(sys.Info), sx.S(sys.T)}}
 	if len(errs) > 0 {
 		out = append(out, errs)
 	}
